@@ -163,7 +163,8 @@ def nests(ctx, depths, ref_max=2000):
                 # first collection and lets WKB (whose collections have no limit) through to the bottom
                 for lim in ([-1, -1, -1], [2, 2, 2], [0, 0, 0]):
                     via = rnd.choice(["", "", "hex", "sql"])
-                    c = dict(bytes=b, flavor=flavor, nan=False, lim=lim, via=via,
+                    # nest = number of nested headers (WKBDecObs!Nested: beyond 32 levels acceptance is not demanded)
+                    c = dict(bytes=b, flavor=flavor, nan=False, lim=lim, via=via, multi=True, nest=d,
                              wrap=("GC" if rnd.random() < 0.7 else guess_wrap(b, flavor, rnd)) if via == "sql" else "", hexcodes=[])
                     if len(b) > ref_max:
                         c["noref"] = True
@@ -205,7 +206,7 @@ def honoured_counts(ctx, n):
         else:                                     # LINESTRING: point count forged to the limit, 3 real points
             b = o + type_word(2, dim, False, flavor, xdr) + u32(lim[0], xdr) + pts(3)[4:]
         via = rnd.choice(["", "", "hex", "sql"])
-        out.append(dict(bytes=b, flavor=flavor, nan=False, lim=lim, via=via, noref=True,
+        out.append(dict(bytes=b, flavor=flavor, nan=False, lim=lim, via=via, noref=True, multi=True,
                         wrap=guess_wrap(b, flavor, rnd) if via == "sql" else "", hexcodes=[]))
     return out
 
@@ -238,6 +239,8 @@ def domain_pass(ctx, cands):
 
 
 def seeded(ctx, bases):
+    """every seeded case carries multi=True: an input with SEVERAL defects, on which the ORDER in which a decoder meets them is
+    its own affair (WKBDecObs!Multi: "limit-not-reported" is demanded of the single-defect inputs of WKBMutModel only)."""
     n = 4000 if ctx.quick else 60000
     cands = candidates(ctx, bases, n)
     mx = domain_pass(ctx, cands)
@@ -250,12 +253,13 @@ def seeded(ctx, bases):
             off += 1
         for lim in lims:
             if "hexcodes" in c:
-                out.append(dict(bytes=[], flavor=c["flavor"], nan=c["nan"], lim=lim, via="hexstr", wrap="", hexcodes=c["hexcodes"]))
+                out.append(dict(bytes=[], flavor=c["flavor"], nan=c["nan"], lim=lim, via="hexstr", wrap="", hexcodes=c["hexcodes"],
+                                multi=True))
                 continue
             via = rnd.choice(["", "", "hex", "sql", "sql"])
             if via == "sql" and c["nan"]:
                 via = ""
-            out.append(dict(bytes=c["bytes"], flavor=c["flavor"], nan=c["nan"], lim=lim, via=via,
+            out.append(dict(bytes=c["bytes"], flavor=c["flavor"], nan=c["nan"], lim=lim, via=via, multi=True,
                             wrap=guess_wrap(c["bytes"], c["flavor"], rnd) if via == "sql" else "", hexcodes=[]))
     deep = nests(ctx, [50, 150, 500, 5000]) if ctx.quick else nests(ctx, [50, 150, 400, 1000, 2000, 5000, 8000], ref_max=13500)
     ctx.coverage_extra["seeded"] = dict(candidates=len(cands), with_a_limit_disabled=off, cases=len(out), nested=len(deep),
@@ -280,4 +284,8 @@ def run(ctx, verdict):
     ctx.assumptions += ["seeded inputs (VERIF_SEED): random bytes, splices / insertions of two valid encodings, 2-6 byte flips, forged "
                         "32-bit words anywhere, nested collection headers to depth %s, arbitrary strings for the hex wrappers; "
                         "a limit is disabled only for inputs whose count fields (reference decoder, limits off) are <= 64"
-                        % ("5000 (reference decoder up to 150)" if ctx.quick else "8000 (reference decoder up to 1000)")]
+                        % ("5000 (reference decoder up to 150)" if ctx.quick else "8000 (reference decoder up to 1000)"),
+                        "seeded inputs carry several defects: that an over-limit count is answered with geometry-too-large and no other "
+                        "error is demanded of the single-mutation inputs of WKBMutModel only (never accepted: demanded of all inputs); "
+                        "inputs nested deeper than 32 collection levels may be refused; stability and equality with the reference "
+                        "decoder are judged without the SRIDs of members"]
